@@ -197,6 +197,13 @@ Definition clean_doc (s : schema) (t : tid) (gone : list Z) (d : doc) : doc :=
                                   (if ref_target s t' =? t then clean_ref gone (r_ref x) else r_ref x)
                                   (if list_target s t' =? t then clean_list gone (r_list x) else r_list x)) tb)) d.
 
+(* doBulkUpdateRecord: last = {row_id: i}; keep = sorted(last.values()); row_ids/columns restricted to keep *)
+Fixpoint keep_last {A : Type} (ids : list Z) (vals : list A) : list A :=
+  match ids, vals with
+  | i :: rest, v :: vs => if py_mem Z.eqb i rest then keep_last rest vs else v :: keep_last rest vs
+  | _, _ => []
+  end.
+
 Definition step (s : schema) (st : state) (a : action) : py_result (state * retval) :=
   let d := st_doc st in
   let m := st_maps st in
@@ -221,7 +228,12 @@ Definition step (s : schema) (st : state) (a : action) : py_result (state * retv
       end
   | AUpdate t ids rv lv =>
       let tb := get_table d t in
-      let ids' := translate (m t) ids in
+      let ids0 := translate (m t) ids in
+      (* since fix 060dc6b: a row named more than once keeps its LAST occurrence only, and the values of the
+         dropped occurrences are never converted (so they are not checked either) *)
+      let ids' := keep_last ids0 ids0 in
+      let rv := option_map (keep_last ids0) rv in
+      let lv := option_map (keep_last ids0) lv in
       match prepare_opt prepare_ref (m (ref_target s t)) rv with
       | PyErr e => PyErr e
       | PyOk rv' =>
